@@ -17,6 +17,7 @@ import Proofs.SemaphoreNest
 import Martian.SemaphoreSys
 import Proofs.SemaphoreCaller
 import Proofs.SemaphoreSysLive
+import Proofs.SemaphoreQueue
 import Gen.Facts
 
 namespace Props.C12
@@ -770,6 +771,27 @@ theorem skel_runJobs_ok :
      "self.waiters = self.waiters[len(self.waiters):]"] := by
   first | exact Or.inr rfl | exact Or.inl rfl
 
+/-- `refreshResources`: which sampled quantity goes into which availability
+update (the sampled values themselves are environment input, not modelled):
+memory `UpdateFreeUsed(free, rss of mrp's CHILDREN — mrp itself excluded)`,
+vmem `UpdateActual(max - vmem of the children)`, cores `UpdateActual(idle cores)`,
+processes `UpdateFreeUsed(rlimit - user's processes, children + startingThreadCount)`. -/
+theorem skel_refreshResources_ok :
+    Gen.c12Skel_refreshResources_extracted = false ∨ Gen.c12Skel_refreshResources =
+    ["err := sysMem.Get()",
+     "usedMem, err := GetProcessTreeMemory(os.Getpid(), false, nil)",
+     "memDiff := self.memMBSem.UpdateFreeUsed( (sysMem.ActualFree+1024*1024-1)/(1024*1024), (usedMem.Rss+1024*1024-1)/(1024*1024))",
+     "if self.vmemMBSem != nil",
+     "self.vmemMBSem.UpdateActual( self.maxVmemMB - usedMem.Vmem/(1024*1024))",
+     "if self.limitLoad",
+     "err := load.Get()",
+     "diff := self.centcoreSem.UpdateActual( int64((float64(runtime.NumCPU()) - load.One + 0.9) * 100), )",
+     "if self.procsSem != nil",
+     "rlim, err := GetMaxProcs()",
+     "userProcs, err := GetUserProcessCount()",
+     "self.procsSem.UpdateFreeUsed( rlimCur(rlim)-int64(userProcs), int64(usedMem.Procs)+startingThreadCount)"] := by
+  first | exact Or.inr rfl | exact Or.inl rfl
+
 theorem skel_setupSemaphores_ok :
     Gen.c12Skel_setupSemaphores_extracted = false ∨ Gen.c12Skel_setupSemaphores =
     ["self.centcoreSem = NewResourceSemaphore(int64(self.maxCores)*100, formatCentiThreads)",
@@ -787,7 +809,340 @@ theorem skel_setupSemaphores_ok :
      "if rlimMax(rlim) > rlimCur(rlim)"] := by
   first | exact Or.inr rfl | exact Or.inl rfl
 
+/-! ## Availability updates are applied exactly (no dead band) -/
+
+/-- **The observation is applied.**  After `UpdateSize` / `UpdateActual` /
+`UpdateFreeUsed` the current size is exactly the value computed from the
+arguments, however small the change. -/
+theorem observation_is_applied (s : Sem) (op : SemOp) (c : Int) (h : observedSize s op = some c) :
+    (step s op).1.cur = c := by
+  cases op with
+  | acquire id n => simp [observedSize] at h
+  | release n => simp [observedSize] at h
+  | updActual n =>
+    simp only [observedSize, Option.some.injEq] at h
+    simp only [step]; rw [← h]; exact (setCur_cur s _).1
+  | updSize n =>
+    simp only [observedSize, Option.some.injEq] at h
+    simp only [step]; rw [← h]; exact (setCur_cur s _).1
+  | updFreeUsed f u =>
+    simp only [observedSize, Option.some.injEq] at h
+    simp only [step]; rw [← h]; exact (setCur_cur s _).1
+
+/-- **No waiter is left behind by an availability update**: after an update
+that reports the size `c`, the queue is empty or its head does not fit
+`c - reserved` — for every amount of growth, down to 1 (the harness monitors
+exactly this on the real semaphore: `lost-wakeup` against the last reported
+availability). -/
+theorem no_waiter_fits_last_observation (s : Sem) (op : SemOp) (c : Int)
+    (h : observedSize s op = some c) (hs : NoLost s) :
+    match (step s op).1.waiters with
+    | [] => True
+    | w :: _ => c - (step s op).1.reserved < w.2 := by
+  have hp : hasPanic (step s op).2 = false := by
+    cases op with
+    | acquire id n => simp [observedSize] at h
+    | release n => simp [observedSize] at h
+    | updActual n => simp [step, hasPanic_append, setCur_hasPanic, hasPanic]
+    | updSize n => simp [step, setCur_hasPanic]
+    | updFreeUsed f u => simp [step, hasPanic_append, setCur_hasPanic, hasPanic]
+  have hn := step_noLost s op hs hp
+  have hc := observation_is_applied s op c h
+  unfold NoLost at hn
+  rw [hc] at hn
+  exact hn
+
+/-! ## Cluster mode: reconciliation with the scheduler's queue (queue query)
+
+Model: Martian/SemaphoreQueue.lean (`Pipestance.queryQueue`,
+`RemoteJobManager.checkQueue`, `Metadata.failNotRunning`, `Metadata.endRefresh`
+as called by `Node.refreshState`).  `jobRun s evs j` is the job `j` of state `s`
+after the events `evs` (`run_follows_jobs`).  What "never stalls" means here: a
+job that silently vanished from the cluster (the scheduler no longer lists it,
+it never writes anything) does not keep the pipestance waiting for ever. -/
+
+section QueueQuery
+open Martian
+
+/-- the jobs of the state after a run are the jobs of the state before, each followed through the run -/
+theorem run_follows_jobs (s : SemaphoreQueue.Q) (evs : List SemaphoreQueue.Ev) :
+    (SemaphoreQueue.run s evs).jobs = s.jobs.map (SemaphoreQueue.jobRun s evs) :=
+  SemaphoreQueue.run_jobs s evs
+
+/-- **Safety, one event.**  The only thing that fails a job "not queued or
+running" is a `refreshState` at a time `t` later than mark + grace period, where
+the mark was made (see `mark_only_by_omitting_answer`) and BOTH mrp's cached
+state and the files the job has written so far (the journal is applied first)
+still say Queued/Running: a job that finished within the grace period, or
+whose completion reached the journal before the refresh, is not failed. -/
+theorem recon_fails_only_after_grace (s : SemaphoreQueue.Q) (ev : SemaphoreQueue.Ev) (j : SemaphoreQueue.Job)
+    (h : (SemaphoreQueue.stepJob s ev j).st = .notQueued) (h0 : j.st ≠ .notQueued)
+    (hd : j.disk ≠ .notQueued) :
+    ∃ t s0, ev = .refresh t ∧ j.since = some s0 ∧ s0 + s.grace < t ∧
+      j.st.alive = true ∧ j.disk.alive = true :=
+  SemaphoreQueue.stepJob_notQueued s ev j h h0 hd
+
+/-- A mark (`notRunningSince`) is only ever set by a successful answer that
+omits the job, and carries that answer's time. -/
+theorem mark_only_by_omitting_answer (s : SemaphoreQueue.Q) (ev : SemaphoreQueue.Ev)
+    (j : SemaphoreQueue.Job) (s0 : Nat) (h : (SemaphoreQueue.stepJob s ev j).since = some s0) :
+    j.since = some s0 ∨ ∃ out, ev = .answer s0 (some out) ∧ j.jobid ∉ out :=
+  SemaphoreQueue.stepJob_since s ev j s0 h
+
+/-- **Safety over a run.**  A job which every successful answer names (failed
+query commands count as "everything is still there") is never marked and never
+failed by the reconciliation, whatever else happens and however long it runs. -/
+theorem reported_job_never_failed (s : SemaphoreQueue.Q) (evs : List SemaphoreQueue.Ev)
+    (j : SemaphoreQueue.Job) (hr : SemaphoreQueue.Reported j.jobid evs) (hs : j.since = none)
+    (hd : j.disk ≠ .notQueued) (h0 : j.st ≠ .notQueued) :
+    (SemaphoreQueue.jobRun s evs j).since = none ∧ (SemaphoreQueue.jobRun s evs j).st ≠ .notQueued :=
+  SemaphoreQueue.jobRun_reported s evs j hr hs hd h0
+
+/-- The hypothesis "EVERY answer names it" cannot be weakened to "the scheduler
+reports it now": nothing clears a mark.  A job omitted by one answer (time 0) and
+named by every later one (times 300, 600) is still failed by the first refresh
+after the grace period (40) although the scheduler has been listing it all
+along.  (Replayed on the real code by the harness: documented limit — the code
+trusts a single omitting answer; the struct comment on `notRunningSince` says
+"not found last time the job manager was queried".) -/
+theorem reported_again_still_failed :
+    let j : SemaphoreQueue.Job := ⟨"7", true, .running, .running, none⟩
+    let s : SemaphoreQueue.Q := ⟨40, 300, none, none, [j]⟩
+    (SemaphoreQueue.jobRun s [.issue 0, .answer 0 (some [""]), .issue 300, .answer 300 (some ["7", ""]),
+        .refresh 301, .issue 600, .answer 600 (some ["7", ""]), .refresh 601] j).st = .notQueued := by
+  decide
+
+/-- a query command that fails marks nothing -/
+theorem failed_query_marks_nothing (s : SemaphoreQueue.Q) (t : Nat) (j : SemaphoreQueue.Job) :
+    SemaphoreQueue.stepJob s (.answer t none) j = j := by
+  simp only [SemaphoreQueue.stepJob]
+  cases s.active with
+  | none => rfl
+  | some ids => simp [Option.getD]
+
+/-- **The query is issued.**  With no query in flight and at least
+`QUEUE_CHECK_LIMIT` (regenerated: `Gen.queueCheckLimitSecs` = 300 s) since the
+last one finished, a call of `queryQueue` starts a query which asks about every
+in-flight job. -/
+theorem query_issued_after_limit (s : SemaphoreQueue.Q) (t : Nat) (j : SemaphoreQueue.Job)
+    (hlim : s.limit = Gen.queueCheckLimitSecs)
+    (hj : j ∈ s.jobs) (hok : j.inFlight) (hact : s.active = none)
+    (hlast : ∀ l, s.last = some l → l + 300 ≤ t) :
+    ∃ ids, (SemaphoreQueue.step s (.issue t)).active = some ids ∧ j.jobid ∈ ids := by
+  apply SemaphoreQueue.issue_effective s t j hj hok hact
+  simp only [SemaphoreQueue.rateLimited]
+  cases hl : s.last with
+  | none => rfl
+  | some l =>
+    have := hlast l hl
+    have h300 : Gen.queueCheckLimitSecs = 300 := by decide
+    simp only [hlim, h300, decide_eq_false_iff_not]
+    omega
+
+/-- **A silently lost job is eventually failed** (so the pipestance does not
+wait for it for ever).  Let job `j` be in flight (Queued/Running in mrp's view
+and on disk, with a job id) and lost during the whole run: it writes nothing
+and no successful answer names it.  If at some point `queryQueue` is called at
+`t1` with no query in flight and the rate limit passed, its answer arrives
+(command succeeded) at `t2`, and `refreshState` runs at any `t3 > t2 + grace`,
+then after that refresh `j` is failed — whatever happens in between (`pre`,
+`mid1`, `mid2` are arbitrary: other jobs' progress, further query attempts,
+refreshes, answers of earlier queries before `t2`).
+Bound: t3 − (time of loss) ≤ (wait for the rate limit: < limit + heartbeat
+period, `query_issued_after_limit`) + query latency + grace + refresh period.
+Needs a SUCCESSFUL answer: with a query command that always fails the job is
+never failed by this path (`broken_query_never_fails_lost_job`). -/
+theorem lost_job_eventually_failed (s : SemaphoreQueue.Q) (j : SemaphoreQueue.Job)
+    (pre mid1 mid2 : List SemaphoreQueue.Ev) (t1 t2 t3 : Nat) (out : List String)
+    (hj : j ∈ s.jobs) (hok : j.inFlight)
+    (hl : SemaphoreQueue.Lost j.jobid
+      (pre ++ (SemaphoreQueue.Ev.issue t1 :: (mid1 ++ (SemaphoreQueue.Ev.answer t2 (some out) :: mid2)))))
+    (hact : (SemaphoreQueue.run s pre).active = none)
+    (hrate : SemaphoreQueue.rateLimited (SemaphoreQueue.run s pre) t1 = false)
+    (hmid : SemaphoreQueue.noAnswer mid1) (hby : SemaphoreQueue.answersBy t2 pre)
+    (h0 : ∀ s0, j.since = some s0 → s0 ≤ t2) (ht : t2 + s.grace < t3) :
+    (SemaphoreQueue.jobRun s
+      (pre ++ (SemaphoreQueue.Ev.issue t1 :: (mid1 ++ (SemaphoreQueue.Ev.answer t2 (some out) ::
+        (mid2 ++ [SemaphoreQueue.Ev.refresh t3]))))) j).st = .notQueued :=
+  SemaphoreQueue.lost_job_failed s j pre mid1 mid2 t1 t2 t3 out hj hok hl hact hrate hmid hby h0 ht
+
+/-- The success of the query command is necessary: if every answer is a command
+failure (`checkQueue` then returns the queried ids unchanged) a lost job is
+never marked, so never failed by the reconciliation — only the 60-minute
+heartbeat timeout (Running jobs only; not modelled) is left. -/
+theorem broken_query_never_fails_lost_job (s : SemaphoreQueue.Q) (evs : List SemaphoreQueue.Ev)
+    (j : SemaphoreQueue.Job) (hfail : ∀ t out, SemaphoreQueue.Ev.answer t out ∈ evs → out = none)
+    (hs : j.since = none) (hd : j.disk ≠ .notQueued) (h0 : j.st ≠ .notQueued) :
+    (SemaphoreQueue.jobRun s evs j).st ≠ .notQueued := by
+  refine (SemaphoreQueue.jobRun_reported s evs j ?_ hs hd h0).2
+  intro ev hev
+  cases ev with
+  | answer t out =>
+    have := hfail t out hev
+    subst this
+    trivial
+  | issue t => trivial
+  | refresh t => trivial
+  | progress i d => trivial
+
+/-- an empty answer (exit status 0, no output: `strings.Split("", "\n")` is `[""]`)
+is NOT treated as a broken command: every queried job is marked -/
+theorem empty_answer_marks_every_queried_job :
+    let js : List SemaphoreQueue.Job := [⟨"a", true, .queued, .queued, none⟩, ⟨"b", true, .running, .running, none⟩]
+    let s : SemaphoreQueue.Q := ⟨40, 300, none, none, js⟩
+    ((SemaphoreQueue.run s [.issue 5, .answer 6 (some [""])]).jobs.map (·.since))
+      = [some 6, some 6] := by
+  decide
+
+/-- the grace period of a configured job mode: `queue_query_grace_secs`, one hour when 0 -/
+theorem grace_default_ok :
+    SemaphoreQueue.graceOfConfig 0 Gen.queueGraceDefaultSecs = 3600 ∧
+    SemaphoreQueue.graceOfConfig 40 Gen.queueGraceDefaultSecs = 40 := by decide
+
+/-! ### Regenerated obligations: the code the queue-query model mirrors -/
+
+theorem skel_queryQueue_ok :
+    Gen.c12Skel_queryQueue_extracted = false ∨ Gen.c12Skel_queryQueue =
+    ["defer func",
+     "if self.node == nil || self.node.top == nil || self.node.top.rt == nil || self.node.top.rt.JobManager == nil || !self.node.top.rt.JobManager.hasQueueCheck()",
+     "return",
+     "QUEUE_CHECK_LIMIT := 5 * time.Minute",
+     "self.queueCheckLock.Lock()",
+     "if self.queueCheckActive || time.Since(self.lastQueueCheck) < QUEUE_CHECK_LIMIT",
+     "self.queueCheckLock.Unlock()",
+     "return",
+     "else",
+     "self.queueCheckActive = true",
+     "self.queueCheckLock.Unlock()",
+     "needsQuery := make(map[string]*Metadata)",
+     "metas := make(map[*Metadata]bool)",
+     "nodes := self.node.getFrontierNodes()",
+     "for range nodes",
+     "for range node.collectMetadatas()",
+     "if !metas[m]",
+     "st, ok := m.getState()",
+     "if ok && (st == Queued || st == Running) && m.exists(JobId)",
+     "metas[m] = true",
+     "id := m.readRaw(JobId)",
+     "if id != \"\"",
+     "needsQuery[id] = m",
+     "if len(needsQuery) == 0",
+     "self.queueCheckLock.Lock()",
+     "self.queueCheckActive = false",
+     "self.queueCheckLock.Unlock()",
+     "return",
+     "jobsIn := make([]string, 0, len(needsQuery))",
+     "for range needsQuery",
+     "jobsIn = append(jobsIn, id)",
+     "go",
+     "queued, raw := self.node.top.rt.JobManager.checkQueue(jobsIn, ctx)",
+     "for range queued",
+     "delete(needsQuery, id)",
+     "if len(needsQuery) > 0 && raw != \"\"",
+     "if !self.readOnly()",
+     "for range needsQuery",
+     "if m != nil",
+     "m.failNotRunning(id)",
+     "self.queueCheckLock.Lock()",
+     "self.queueCheckActive = false",
+     "self.lastQueueCheck = time.Now()",
+     "self.queueCheckLock.Unlock()"] := by
+  first | exact Or.inr rfl | exact Or.inl rfl
+
+theorem skel_checkQueue_ok :
+    Gen.c12Skel_checkQueue_extracted = false ∨ Gen.c12Skel_checkQueue =
+    ["if self.config.queueQueryCmd == \"\"",
+     "return ids, \"\"",
+     "jobPath := util.RelPath(path.Join(\"..\", \"jobmanagers\"))",
+     "cmd := exec.CommandContext(ctx, path.Join(jobPath, self.config.queueQueryCmd))",
+     "cmd.Dir = jobPath",
+     "cmd.Stdin = strings.NewReader(strings.Join(ids, \"\\n\"))",
+     "cmd.Stderr = &stderr",
+     "output, err := cmd.Output()",
+     "if err != nil",
+     "return ids, stderr.String()",
+     "return strings.Split(string(output), \"\\n\"), stderr.String()"] := by
+  first | exact Or.inr rfl | exact Or.inl rfl
+
+theorem skel_failNotRunning_ok :
+    Gen.c12Skel_failNotRunning_extracted = false ∨ Gen.c12Skel_failNotRunning =
+    ["if !self.exists(JobId)",
+     "return",
+     "st, _ := self.getState()",
+     "if st != Running && st != Queued",
+     "return",
+     "self.poll()",
+     "st, _ := self.getState()",
+     "if st != Running && st != Queued",
+     "return",
+     "self.mutex.Lock()",
+     "defer self.mutex.Unlock()",
+     "if !self.notRunningSince.IsZero()",
+     "return",
+     "if self.readRaw(JobId) != jobid",
+     "return",
+     "if !self._existsNoLock(JobId)",
+     "return",
+     "self.notRunningSince = time.Now()"] := by
+  first | exact Or.inr rfl | exact Or.inl rfl
+
+theorem skel_endRefresh_ok :
+    Gen.c12Skel_endRefresh_extracted = false ∨ Gen.c12Skel_endRefresh =
+    ["self.mutex.Lock()",
+     "self.lastRefresh = lastRefresh",
+     "if !self.notRunningSince.IsZero() && self.notRunningSince.Before(lastRefresh)",
+     "notRunningSince := self.notRunningSince",
+     "self.notRunningSince = time.Time{}",
+     "state, _ := self._getStateNoLock()",
+     "if state == Running || state == Queued",
+     "jobid := self.readRaw(JobId)",
+     "if jobid != \"\"",
+     "if state == Running",
+     "else",
+     "self.mutex.Unlock()"] := by
+  first | exact Or.inr rfl | exact Or.inl rfl
+
+end QueueQuery
+
 /-! ## Non-vacuity -/
+
+/-- a lost job among healthy ones: query at 0 answered at 2 without it, a further
+(rate-limited) attempt, refresh after the grace period: failed; the hypotheses of
+`lost_job_eventually_failed` hold for it -/
+example :
+    let j : Martian.SemaphoreQueue.Job := ⟨"12", true, .running, .running, none⟩
+    let k : Martian.SemaphoreQueue.Job := ⟨"13", true, .queued, .queued, none⟩
+    let s : Martian.SemaphoreQueue.Q := ⟨40, 300, none, none, [k, j]⟩
+    j ∈ s.jobs ∧ j.inFlight ∧
+    Martian.SemaphoreQueue.Lost j.jobid ([] ++ (.issue 0 :: ([.progress "13" .running] ++ (.answer 2 (some ["13", ""]) :: [.issue 10])))) ∧
+    (Martian.SemaphoreQueue.run s []).active = none ∧
+    Martian.SemaphoreQueue.rateLimited (Martian.SemaphoreQueue.run s []) 0 = false ∧
+    Martian.SemaphoreQueue.noAnswer [.progress "13" .running] ∧
+    ((Martian.SemaphoreQueue.run s [.issue 0, .progress "13" .running, .answer 2 (some ["13", ""]), .issue 10,
+        .refresh 43]).jobs.map (·.st)) = [.running, .notQueued] := by
+  refine ⟨by decide, ⟨rfl, rfl, rfl, by decide⟩, ?_, rfl, rfl, ?_, by decide⟩
+  · intro ev hev
+    simp only [List.nil_append, List.cons_append, List.mem_cons, List.mem_nil_iff, or_false] at hev
+    rcases hev with rfl | rfl | rfl | rfl <;> simp [Martian.SemaphoreQueue.Ev.lostFor]
+  · intro ev hev
+    simp only [List.mem_cons, List.mem_nil_iff, or_false] at hev
+    subst hev; trivial
+
+/-- a reported job: `Reported` holds and the job survives a refresh long after the grace period -/
+example :
+    let j : Martian.SemaphoreQueue.Job := ⟨"5", true, .queued, .queued, none⟩
+    let s : Martian.SemaphoreQueue.Q := ⟨1, 300, none, none, [j]⟩
+    Martian.SemaphoreQueue.Reported "5" [.issue 0, .answer 1 (some ["5"]), .progress "5" .running, .refresh 5000] ∧
+    (Martian.SemaphoreQueue.jobRun s [.issue 0, .answer 1 (some ["5"]), .progress "5" .running, .refresh 5000] j).st = .running := by
+  refine ⟨?_, by decide⟩
+  intro ev hev
+  simp only [List.mem_cons, List.mem_nil_iff, or_false] at hev
+  rcases hev with rfl | rfl | rfl | rfl <;> simp [Martian.SemaphoreQueue.Ev.reports]
+
+/-- an update that grows the size by 1 wakes the waiter that now fits -/
+example : observedSize ⟨8192, 8091, 0, [(1, 8092)]⟩ (.updActual 8092) = some 8092 ∧
+    NoLost ⟨8192, 8091, 0, [(1, 8092)]⟩ ∧
+    (step ⟨8192, 8091, 0, [(1, 8092)]⟩ (.updActual 8092)).1.waiters = [] := by decide
 
 /-- a run with blocking, FIFO hand-over, an availability drop and a restore:
 no panic, three requests accepted, all granted in order -/
